@@ -11,7 +11,8 @@
 (*                               string, call of a constant template, an   *)
 (*                               if/else boundary: "")                     *)
 (*   [k |-> "sc",   n |-> name]  a special-character command               *)
-(*   [k |-> "lit",  s |-> str]   {literal}s{/literal}                      *)
+(*   [k |-> "lit",  s |-> str,   {literal}s{/literal}, or with d = TRUE     *)
+(*          d |-> BOOLEAN]       {{literal}}s{{/literal}}                  *)
 (*   [k |-> "bcom", s |-> str]   block comment                             *)
 (*   [k |-> "lcom", s |-> str]   line comment, s includes "//" and the     *)
 (*                               line break that ends it (if any)          *)
@@ -77,7 +78,7 @@ InDomain(segs) ==
                          /\ SubSeq(g.s, Len(g.s) - 1, Len(g.s)) = "*/"
                          /\ R!FindClose(R!ToText(g.s), 3) = Len(g.s) - 1
       [] g.k = "sc"   -> g.n \in DOMAIN SpecialChar
-      [] g.k = "lit"  -> TRUE
+      [] g.k = "lit"  -> R!FindSub(R!ToText(g.s), R!LitClose(g.d), 1) = 0   \* else the block ends early
       [] g.k = "tag"  -> TRUE
       [] OTHER -> FALSE
 
